@@ -274,3 +274,65 @@ func LoadReplay(path string, into any) (sig string, err error) {
 	}
 	return f.Signature, json.Unmarshal(f.Replay, into)
 }
+
+// PanicSite returns the innermost function of the module under test on a panic stack, without
+// arguments or addresses, e.g. "schema.CallableSchema.CallSignal".
+func PanicSite(stack string, pkgMarkers ...string) string {
+	if len(pkgMarkers) == 0 {
+		pkgMarkers = []string{"pluginsdk/atp.", "pluginsdk/schema.", "pluginsdk/plugin.", "main.", "codegen"}
+	}
+	for _, l := range strings.Split(stack, "\n") {
+		l = strings.TrimSpace(l)
+		hit := false
+		for _, m := range pkgMarkers {
+			if strings.Contains(l, m) && !strings.Contains(l, "/mcrt.") {
+				hit = true
+			}
+		}
+		if !hit {
+			continue
+		}
+		fn := l
+		if i := strings.Index(fn, " "); i > 0 {
+			fn = fn[:i]
+		}
+		// cut the argument list: the first "(" that does not directly follow a "."
+		for i := 0; i < len(fn); i++ {
+			if fn[i] == '(' && i > 0 && fn[i-1] != '.' {
+				fn = fn[:i]
+				break
+			}
+		}
+		if i := strings.LastIndex(fn, "/"); i >= 0 {
+			fn = fn[i+1:]
+		}
+		return fn
+	}
+	return "?"
+}
+
+// PanicClass reduces a panic value to its first line without addresses.
+func PanicClass(v string) string {
+	if i := strings.IndexByte(v, '\n'); i >= 0 {
+		v = v[:i]
+	}
+	// drop hex addresses
+	var b strings.Builder
+	for i := 0; i < len(v); i++ {
+		if v[i] == '0' && i+1 < len(v) && v[i+1] == 'x' {
+			j := i + 2
+			for j < len(v) && strings.IndexByte("0123456789abcdefABCDEF", v[j]) >= 0 {
+				j++
+			}
+			b.WriteString("0x?")
+			i = j - 1
+			continue
+		}
+		b.WriteByte(v[i])
+	}
+	v = b.String()
+	if len(v) > 140 {
+		v = v[:140]
+	}
+	return v
+}
